@@ -346,6 +346,12 @@ func (f *File) startSegmentIfNeeded(b Box, boxStartPos uint64) {
 		}
 	case (f.fileDecFlags & DecStartOnMoof) != 0:
 		segStart = true
+		if lastSeg := f.LastSegment(); lastSeg != nil {
+			if lastFrag := lastSeg.LastFragment(); lastFrag != nil && lastFrag.Moof == nil {
+				// Segment already started by an emsg box preceding this moof
+				segStart = false
+			}
+		}
 	default:
 		segStart = (segIdx == 0)
 	}
